@@ -20,6 +20,7 @@ from vverif.core import Result, Violation, HarnessError
 
 LEVEL = 'model_checking'
 
+BP_CLASSES = ('bp', 'asymC', 'asymS')
 ACTORS = ('C', 'S', 'DC', 'DS')     # client script, server script, client starts reading, server starts reading
 
 
@@ -47,6 +48,8 @@ def specs_for(tier):
         add('one', 2, q)
         add('buf1', 2, q)
         add('bp', 1, [('fin', 'fin'), ('shut', 'fin'), ('fin', 'shut')])
+        add('asymC', 1, [('shut', 'fin')], (False,))
+        add('asymS', 1, [('fin', 'shut')])
     else:
         t = [(c, s) for c in ('fin', 'shut', 'rst') for s in ('fin', 'shut', 'rst')]
         add('one', 3, t)
@@ -54,6 +57,8 @@ def specs_for(tier):
         add('mixed', 3, t)
         add('bp', 1, t)
         add('bp', 2, [('fin', 'fin'), ('shut', 'fin'), ('fin', 'shut')])
+        add('asymC', 1, t)
+        add('asymS', 1, t)
     return out
 
 
@@ -79,6 +84,8 @@ def chunk(sp, side, i, bufsz):
         return httpref.body_pattern(v, n)
     if cls == 'bp':
         return httpref.body_pattern(v, BP_CHUNK)
+    if cls in ('asymC', 'asymS'):
+        return httpref.body_pattern(v, ASYM_SMALL if side == cls[4] else BP_CHUNK)
     raise HarnessError('bad class ' + cls)
 
 
@@ -89,6 +96,7 @@ def chunk(sp, side, i, bufsz):
 BP_CHUNK = 384 * 1024
 BP_SOCKBUF = 8192
 BP_MSS = 1460
+ASYM_SMALL = 24 * 1024          # fits into Squid's socket send queue + the peer's receive window, but not into the window alone
 GRACE_STEP_S = 0.03             # kernel timers (delayed ACK 40 ms, window probes) are outside the virtual clock
 GRACE_STEPS = 12
 
@@ -105,8 +113,8 @@ class Sched:
         self.script = {
             'C': ['send%d' % i for i in range(1 if sp['early'] else 0, n)] + tail(sp['cs']),
             'S': ['send%d' % i for i in range(n)] + tail(sp['ss']),
-            'DC': ['drain'] if sp['cls'] == 'bp' else [],
-            'DS': ['drain'] if sp['cls'] == 'bp' else [],
+            'DC': ['drain'] if sp['cls'] in BP_CLASSES else [],
+            'DS': ['drain'] if sp['cls'] in BP_CLASSES else [],
         }
         self.pos = {a: 0 for a in ACTORS}
         self.gone = {'C': False, 'S': False}      # socket fully closed by its owner
@@ -236,7 +244,7 @@ def _first_diff(a, b):
 def execute(w, sp, choices, bufsz, trace=None):
     """Run one execution.  Returns dict(violation=None|(key, what), transcript=[...], states=[h...], transitions=n, outcome=str)."""
     sq = w.sq
-    bp = sp['cls'] == 'bp'
+    bp = sp['cls'] in BP_CLASSES
     ch = ex.Chooser(choices)
     sched = Sched(sp)
     tr = []             # canonical transcript
@@ -264,6 +272,10 @@ def execute(w, sp, choices, bufsz, trace=None):
             for s in all_sides():
                 if s.pump():
                     prog = True
+            if trace is not None:
+                trace.append('  round: ' + ' '.join('%s ksent=%d outq=%d recv=%d%s%s' % (
+                    s.name, len(s.ksent), sum(len(i) for i in s.outq if not isinstance(i, str)), len(s.recv),
+                    ' eof' if s.conn.eof else '', ' rst' if s.conn.reset else '') for s in all_sides()))
             if not prog:
                 break
             if rounds > 4000:
@@ -342,6 +354,11 @@ def execute(w, sp, choices, bufsz, trace=None):
             # sent to it: TCP then allows undelivered bytes of S to be discarded, so no completeness claim is made
             s_got = (client_payload() or b'') if S is cli else bytes(S.recv)
             aborted = S.closeish == 'rst' or (S.closed and len(R.ksent) > len(s_got))
+            if sp['cls'] == 'bp' and S.closeish and len(R.ksent) > len(s_got):
+                # half-close with data in flight towards the closer: Squid closes the far socket with close(2); whether the
+                # kernel then still delivers what Squid had queued depends on kernel buffer state (see asym classes, which
+                # pin that state, and docs/checks/C06.md)
+                aborted = True
             if aborted:
                 res['facts'].add(dname + ':sender-aborted')
             if R.reading and R.closeish is None and not aborted and len(got) != len(want):
@@ -366,8 +383,8 @@ def execute(w, sp, choices, bufsz, trace=None):
         else:
             cdesc = '%d:%x' % (len(cp), ex.h64(cp))
             sdesc = '%d:%x' % (len(sp_), ex.h64(sp_))
-        tr.append('%s c=%s%s%s s=%s%s%s' % (label, cdesc, ' eof' if cli.conn.eof else '', ' rst' if cli.conn.reset else '',
-                                          sdesc, ' eof' if srv and srv.conn.eof else '', ' rst' if srv and srv.conn.reset else ''))
+        tr.append('%s c=%s%s%s s=%s%s%s' % (label, cdesc, ' eof' if cli.conn.eof else '', ' rst' if cli.conn.reset and not bp else '',
+                                          sdesc, ' eof' if srv and srv.conn.eof else '', ' rst' if srv and srv.conn.reset and not bp else ''))
 
     try:
         # ---- set-up: CONNECT head (+ first chunk when early), 200, accept
@@ -593,7 +610,7 @@ def run(ctx):
     for name, choices, what in crashes:
         violations.append(Violation('crash:' + name.split('/')[0], 'squid crashed/asserted during %s %r: %s' % (name, choices, what),
                                     {'spec': None, 'name': name, 'choices': choices}))
-    if not violations and complete:
+    if complete and not [v for v in violations if v.key.split(':')[0] != 'lost']:
         need = ['s2c:delivered', 'c2s:delivered', 's2c:delivered-after-sender-close', 'c2s:delivered-after-sender-close']
         miss = [f for f in need if facts.get(f, 0) < 10]
         if miss:
@@ -605,9 +622,9 @@ def run(ctx):
         'exhaustive': complete and not deadline, 'executions_by_deviation_count': {str(k): done.get(k, 0) for k in sorted(total_by_dev)},
         'kicks': tot['kicks'], 'determinism_replays': tot['replays'], 'outcome_classes': outcomes, 'delivery_facts': facts,
         'tunnel_buffer_bytes': bufsz, 'bp_chunk_bytes': BP_CHUNK,
-        'rule': 'spec = chunk class {1 byte, tunnel buffer+1, back-pressure (%d KiB chunks, receivers start reading late)%s} x early bytes {with CONNECT head, after 200} x client close style x server close style; '
+        'rule': 'spec = chunk class {1 byte, tunnel buffer+1, back-pressure (%d KiB chunks, receivers start reading late), asymmetric (24 KiB one way against a blocked %d KiB the other way)%s} x early bytes {with CONNECT head, after 200} x client close style x server close style; '
                 'per spec every interleaving of client script [a1..an, close] and server script [b1..bn, close] (+ the two "start reading" actions in the back-pressure class) is executed' % (
-                    BP_CHUNK // 1024, '' if ctx.quick else ', mixed sizes'),
+                    BP_CHUNK // 1024, BP_CHUNK // 1024, '' if ctx.quick else ', mixed sizes'),
         'samples': samples[:6],
     }
     return Result(LEVEL, cov, violations, ASSUME)
